@@ -25,11 +25,13 @@ def fp_of(item_json):
     return convo.fpj(convo.dec(item_json))
 
 
-def payloads(max_blob=0):
+def payloads(max_blob=0, min_blob=0):
     small = V.values(max_leaves=4).map(V.to_json)
     if max_blob:
-        big = st.tuples(st.sampled_from(["blob", "tblob"]), st.integers(0, 99), st.integers(0, max_blob)).map(
+        big = st.tuples(st.sampled_from(["blob", "tblob"]), st.integers(0, 99), st.integers(min_blob, max_blob)).map(
             lambda t: {t[0]: ["B", t[1], t[2]]})
+        if min_blob:
+            return st.one_of(small, big)
         return st.one_of(small, small, small, small, big)
     return small
 
@@ -106,8 +108,8 @@ def c02_conversation(conv, p):
     return a_ops, b_ops, [a2b["expect"], b2a["expect"]]
 
 
-def c02_params(max_items=5, max_blob=0, allow_sub=True, allow_threads=True):
-    pl = payloads(max_blob)
+def c02_params(max_items=5, max_blob=0, allow_sub=True, allow_threads=True, min_blob=0):
+    pl = payloads(max_blob, min_blob)
     senders = st.lists(st.lists(pl, max_size=max_items), min_size=1, max_size=2 if allow_threads else 1)
     kinds_b = st.sampled_from(["recv", "recv", "callback"])
     kinds_a = st.sampled_from(["recv", "recv", "callback", "iter"])
